@@ -4,6 +4,7 @@ import (
 	"bufio"
 	"bytes"
 	"context"
+	"encoding/json"
 	"errors"
 	"fmt"
 	"io"
@@ -814,8 +815,24 @@ func runSkip(sc *streamScenario, rec *recorder) {
 	replacer := func(ps []*astits.Packet) ([]*astits.DemuxerData, bool, error) {
 		k := g2
 		g2++
-		rec.ev(M{"ev": "parsecb", "run": "parserRep", "g": k, "n": len(ps), "pids": []int{}, "ccs": []int{}, "pusi": true})
-		return []*astits.DemuxerData{{PID: uint16(k)}}, true, nil
+		// one or two data per unit, with and without a first packet, with and without content: what is delivered is exactly these, as they
+		// were when the parser returned them
+		var out []*astits.DemuxerData
+		ret := []string{}
+		for j := 0; j <= k%2; j++ {
+			d := &astits.DemuxerData{PID: uint16(k)}
+			if (k+j)%3 == 0 && len(ps) > 0 {
+				d.FirstPacket = &astits.Packet{Header: ps[0].Header}
+			}
+			if j == 1 {
+				d.PES = &astits.PESData{Data: []byte{byte(k), 1, 2}, Header: &astits.PESHeader{StreamID: 0xe0}}
+			}
+			js, _ := json.Marshal(d)
+			ret = append(ret, digest(js))
+			out = append(out, d)
+		}
+		rec.ev(M{"ev": "parsecb", "run": "parserRep", "g": k, "n": len(ps), "pids": []int{}, "ccs": []int{}, "pusi": true, "ret": ret})
+		return out, true, nil
 	}
 	data("parserRep", full, astits.DemuxerOptPacketsParser(replacer))
 	g3 := 0
